@@ -65,8 +65,8 @@ class World(SessionWorld):
         err = self.deliver(message.Welcome(88001, roles, realm="realm1", authid="anon", authrole="user", authmethod="anonymous"))
         self.settle()
         if err is not None or self.session._session_id != 88001:
-            from sim.core import HarnessError
-            raise HarnessError("session did not join: %r" % (err,))
+            from sim.core import SetupViolation, HarnessError
+            raise SetupViolation("session-did-not-join-on-WELCOME", repr(err)[:200])
         self.ops_left = 4 + ch.choose(14, "nops")
         self.run.log("cfg", sorted(self.cfg.items()))
 
